@@ -476,6 +476,7 @@ def run_enabled(chk: Check, mr: ModelRun):
                           {'oracle': 'escape sequences iff enabled', 'policy': str(pol), 'enabled': i, 'styled': styled})
     chk.obligation('Y1:Color.enabled vs decision table (all 432 policy/environment combinations)', 'correspondence', bad == 0)
     chk.exhaustive_policy = True
+    return dict(zip(pols, model))
 
 
 # ------------------------------------------------------------------ apply / str / len / format: model tie + property oracle
@@ -698,6 +699,559 @@ def run_repr(chk: Check, mr: ModelRun):
     chk.obligation('Y1:Style.from_raw vs model (reprs and arbitrary raw strings)', 'correspondence', bad == 0)
 
 
+# ------------------------------------------------------------------ markup front end and derived styles: policy propagation
+# Every way of producing styled output from a Color policy (markup(), Color.markup, Style.markup, Color.style, the copying
+# builder methods, Style.__call__, XStyle names) is run with the process default policy (environment, tty-ness) set
+# independently of the explicit policy, and compared with the proved renderer (apply_style / apply of Style.v) under the
+# decision table's verdict for the explicit policy.
+PLAIN = ((False,) * 8, None, None)
+BASIC_COLOURS = ['black', 'red', 'green', 'yellow', 'blue', 'purple', 'cyan', 'white']
+
+
+def basic_name_table():
+    """names of Style's zero-argument methods -> effect; written from the SGR / ANSI tables, not from the code"""
+    t = {}
+    for i, f in enumerate(FLAGS):
+        t[f] = ('flag', i)
+    t['bright'] = ('flag', 0)
+    for i, n in enumerate(BASIC_COLOURS):
+        t[n] = ('fg', i)
+        t[n + '_bg'] = ('bg', i)
+        t['bright_' + n] = ('fg', 8 + i)
+        t['bright_' + n + '_bg'] = ('bg', 8 + i)
+    t['magenta'] = ('fg', 5)
+    t['bright_magenta'] = ('fg', 13)
+    return t
+
+
+def eff_apply(st, eff):
+    flags, fg, bg = st
+    kind, v = eff
+    if kind == 'flag':
+        flags = tuple(f or i == v for i, f in enumerate(flags))
+    elif kind == 'fg':
+        fg = v
+    else:
+        bg = v
+    return (flags, fg, bg)
+
+
+def impl_name_table(cls):
+    """effect of every zero-argument style method of `cls`, read off the implementation with two probes (a name table:
+    trusted for the XStyle colour names, compared with basic_name_table for Style's own names).
+    -> (table, names that do not set exactly one attribute, names whose lookup or call raises)"""
+    from tatsu.ztyle import Color
+    other = ((False,) * 8, 201, 202)
+    table, odd, raising = {}, [], []
+    for n in sorted(dir(cls)):
+        try:
+            if not cls.is_style_method(n):
+                continue
+            a = attrs_of(getattr(cls('x', color=Color.always()), n)())
+            b = attrs_of(getattr(cls('x', fg=201, bg=202, color=Color.always()), n)())
+        except Exception:  # noqa: BLE001
+            raising.append(n)
+            continue
+        effs = [('flag', i) for i in range(8) if a[0][i]]
+        if a[1] is not None:
+            effs.append(('fg', a[1]))
+        if a[2] is not None:
+            effs.append(('bg', a[2]))
+        if len(effs) != 1 or eff_apply(other, effs[0]) != b or isinstance(effs[0][1], tuple):
+            odd.append(n)
+            continue
+        table[n] = effs[0]
+    return table, odd, raising
+
+
+def ref_tokens(text):
+    """hand-written scanner for the markup token grammar: '[[' is a literal '[', '[/name]' closes, '[names]' opens,
+    anything else up to the next '[' is text; a '[' that starts none of these is skipped (what re.finditer does)"""
+    toks = []
+    i, n = 0, len(text)
+    while i < n:
+        if text[i] != '[':
+            j = i
+            while j < n and text[j] != '[':
+                j += 1
+            toks.append(('TXT', text[i:j]))
+            i = j
+            continue
+        if text.startswith('[[', i):
+            toks.append(('TXT', '['))
+            i += 2
+            continue
+        if text.startswith('[/', i):
+            k = text.find(']', i + 2)
+            if k >= 0:
+                toks.append(('RET', text[i + 2:k]))
+                i = k + 1
+                continue
+        k = text.find(']', i + 1)
+        if k > i + 1:
+            toks.append(('CAL', text[i + 1:k]))
+            i = k + 1
+            continue
+        i += 1
+    return toks
+
+
+def ref_markup(texts):
+    """-> [(names on the stack, text segment)] : the segments markup() must render, in order"""
+    stack, segs, part = [], [], ''
+    for text in texts:
+        for kind, val in ref_tokens(text):
+            if kind != 'TXT' and part:
+                segs.append((tuple(stack), part))
+                part = ''
+            if kind == 'CAL':
+                stack = stack + val.split(' ')
+            elif kind == 'RET':
+                if val == '':
+                    stack = stack[:-1]
+                elif val in ('all', '*'):
+                    stack = []
+                elif stack and stack[-1] == val:
+                    stack = stack[:-1]
+            else:
+                part += val
+    if part:
+        segs.append((tuple(stack), part))
+    return segs
+
+
+def stack_attrs(stack, table):
+    st = PLAIN
+    for n in stack:
+        if n in table:
+            st = eff_apply(st, table[n])
+    return st
+
+
+UNKNOWN_TAGS = ['nosuch', 'BOLD', 'Red', 'value', 'color', 'enabled', 'mro', 'fg', 'fmt', 'markup', 'apply', 'magenta_bg',
+                '1', '#ff0000', 'bold,red', 'é']
+MARKUP_EXH = ['a', ' b', '[bold]', '[red]', '[bold red]', '[/]', '[/bold]', '[/all]', '[[', '[', ']']
+
+
+def gen_tag_names(rng, basic, xnames):
+    out = []
+    for _ in range(rng.choice([1, 1, 1, 2, 2, 3])):
+        r = rng.random()
+        out.append(rng.choice(basic) if r < 0.6 else rng.choice(xnames) if r < 0.85 else rng.choice(UNKNOWN_TAGS) if r < 0.97 else '')
+    return out
+
+
+def gen_markup(rng, basic, xnames):
+    """-> list of pieces (their concatenation is the markup source); mostly well-formed, 25% with stray brackets"""
+    wellformed = rng.random() < 0.75
+    pieces, opened = [], []
+    n = rng.randint(1, 7)
+    for k in range(n):
+        r = rng.random()
+        if k == n - 1 and rng.random() < 0.35:
+            r = 0.0  # texts that end in a text segment (possibly inside unclosed tags) are a class of their own
+        if r < 0.4:
+            t = gen_text(rng, esc_free=rng.random() < 0.97, maxn=3)
+            pieces.append(t.replace('[', '[[') if wellformed else t)
+        elif r < 0.68:
+            names = gen_tag_names(rng, basic, xnames)
+            opened += names
+            pieces.append('[' + ' '.join(names) + ']')
+        elif r < 0.88:
+            c = rng.random()
+            if c < 0.4:
+                pieces.append('[/]')
+                opened = opened[:-1]
+            elif c < 0.55:
+                pieces.append(rng.choice(['[/all]', '[/*]']))
+                opened = []
+            elif c < 0.85 and opened:
+                pieces.append(f'[/{opened.pop()}]')
+            else:
+                pieces.append('[/' + rng.choice(basic + UNKNOWN_TAGS) + ']')
+        elif r < 0.94 or wellformed:
+            pieces.append('[[')
+        else:
+            pieces.append(rng.choice(['[', '[]', '[/', '[bold', ']', '[/]]', '[ ]', '[[[', '[/bold', '[\n]']))
+    return pieces
+
+
+def flipped_env(en):
+    """an environment whose default policy is the opposite of `en`"""
+    return EnvCfg(None, '1', False, False) if not en else EnvCfg('1', None, True, True)
+
+
+def render_markup(via, c, texts):
+    from tatsu.ztyle import Style
+    from tatsu.ztyle.markup import markup
+    if via == 'markup()':
+        return markup(*texts)
+    if via == 'markup(color=)':
+        return markup(*texts, color=c)
+    if via == 'Color.markup':
+        return c.markup(texts[0])
+    if via == 'Style.markup':
+        return Style(color=c).markup(texts[0])
+    if via == 'derived.markup':
+        return c.style('x', bold=True).red().fmt('>3')('y').markup(texts[0])
+    raise AssertionError(via)
+
+
+def run_markup(chk: Check, mr: ModelRun, enabled_of: dict):
+    from tatsu.ztyle import Style
+    from tatsu.ztyle.xstyle import XStyle
+    from tatsu.util import tty
+    rng = chk.rng
+    # ---- name tables
+    basic = basic_name_table()
+    t_style_, odd_s, raising_s = impl_name_table(Style)
+    xtable, odd_x, raising_x = impl_name_table(XStyle)
+    chk.count('markup.xstyle-names', len(xtable))
+    chk.count('markup.names-whose-lookup-or-call-raises', len(raising_x))
+    diff = sorted(n for n in set(basic) | set(t_style_) if basic.get(n) != t_style_.get(n))
+    chk.obligation("oracle:Style's named methods (modifiers, 16 ANSI colours, _bg) set the attribute of the SGR/ANSI table; "
+                   'every XStyle name sets exactly one attribute', 'oracle', not diff and not odd_s and not odd_x,
+                   f'differs: {diff[:8]} odd: {(odd_s + odd_x)[:8]}')
+    for n in diff:
+        chk.violation(f'oracle:named-method:{n}', f'Style.{n}() sets {t_style_.get(n)}, the ANSI table says {basic.get(n)}',
+                      {'oracle': 'named style methods', 'name': n, 'impl': str(t_style_.get(n)), 'want': str(basic.get(n))})
+    # the XStyle table is only trusted as far as it is consistent: name_bg <-> background, name and name_bg the same
+    # index, and the index colormap.COLORS gives to the name (when it lists it)
+    from tatsu.ztyle.colormap import COLORMAP
+    incons = sorted(n for n, e in xtable.items() if n not in basic and (
+        (e[0] == 'bg') != n.endswith('_bg') or e[0] == 'flag'
+        or (n + '_bg' in xtable and xtable[n + '_bg'][1] != e[1])
+        or COLORMAP.get(n.removesuffix('_bg'), e[1]) != e[1]))
+    chk.obligation('oracle:XStyle names: _bg sets the background, name/name_bg agree, index = colormap.COLORS', 'oracle',
+                   not incons, f'inconsistent: {incons[:8]}')
+    for n in incons:
+        chk.violation('oracle:xstyle-name-table', f'XStyle.{n}() sets {xtable[n]}: inconsistent with its name / colormap.COLORS',
+                      {'oracle': 'XStyle name table consistency', 'name': n, 'impl': str(xtable[n]),
+                       'colormap': COLORMAP.get(n.removesuffix('_bg'))})
+    table = dict(xtable)
+    table.update(basic)  # the reference uses its own table for Style's names
+    bnames, xnames = sorted(basic), sorted(set(xtable) - set(basic))
+
+    # ---- cases: (pieces, texts, policy, via)
+    cases = []
+    fixed = [(False, None, '1', False, False, False), (False, None, None, False, True, True), (True, '1', None, False, False, False),
+             (None, None, '1', False, False, False), (None, '1', None, False, True, True), (None, None, None, True, False, True)]
+    for n in range(1, 4 if chk.quick else 5):
+        for combo in itertools.product(MARKUP_EXH, repeat=n):
+            for pol in (fixed if n < 3 else fixed[:3]):
+                cases.append((list(combo), [''.join(combo)], pol, 'markup(color=)'))
+    chk.count('markup.exhaustive-small', len(cases))
+    pols = list(all_policies())
+    for _ in range(3000 if chk.quick else 60000):
+        pieces = gen_markup(rng, bnames, xnames)
+        src = ''.join(pieces)
+        via = rng.choice(['markup(color=)', 'markup(color=)', 'Color.markup', 'Style.markup', 'derived.markup', 'markup()'])
+        pol = rng.choice(pols)
+        if rng.random() < 0.5:   # explicit policy against the opposite default (through the environment or the tty-ness)
+            en0 = rng.random() < 0.35
+            pol = (en0, None, '1', pol[3], True, True) if not en0 else (en0, '1', None, pol[3], False, False)
+            if rng.random() < 0.5:
+                pol = (en0, None, None, pol[3], not en0, not en0)
+        if via == 'markup()':
+            pol = (None, pol[1], pol[2], False, pol[4], pol[5])
+        texts = [src]
+        if via in ('markup()', 'markup(color=)') and rng.random() < 0.25 and len(src) > 1:
+            k = rng.randrange(1, len(src)) if rng.random() < 0.3 else len(''.join(pieces[:rng.randrange(0, len(pieces) + 1)]))
+            texts = [src[:k], src[k:]]
+        cases.append((pieces, texts, pol, via))
+
+    refs, reqs = [], []
+    for pieces, texts, pol, via in cases:
+        segs = ref_markup(texts)
+        en = enabled_of[pol]
+        refs.append(segs)
+        for stack, part in segs:
+            reqs.append(f'(apply_style {sx(en)} 0 {sx_style(stack_attrs(stack, table))} {sx(part)})')
+    rep = iter(mr.ask(reqs))
+    bad = 0
+
+    def attempt(via, pol, texts, flip=False):
+        force, nc, fc, cs, ot, et = pol
+        try:
+            with EnvCfg(nc, fc, ot, et):
+                c = mk_color(force, cs)
+                z = render_markup(via, c, texts)
+                if not flip:
+                    return (str(z), z.value, len(z))
+            with flipped_env(enabled_of[pol]):
+                return (str(z), z.value, len(z))
+        except (ValueError, TypeError) as e:
+            return f'raises {type(e).__name__}'
+
+    def oracle(via, pol, texts):
+        """which clause of the property the rendering violates (implementation only), or None"""
+        got = attempt(via, pol, texts)
+        if isinstance(got, str):
+            return None
+        out, value, ln = got
+        if ESC in value:
+            return None
+        if tty.descape(out) != value:
+            return 'transparent'
+        if not enabled_of[pol] and out != value:
+            return 'disabled-has-escape'
+        if ln != len(value):
+            return 'visible-length'
+        if pol[0] is not None and attempt(via, pol, texts, flip=True) != got:
+            return 'policy-env-dependent'
+        return None
+
+    for (pieces, texts, pol, via), segs in zip(cases, refs):
+        en = enabled_of[pol]
+        want_parts = [sx_str(next(rep)) for _ in segs]
+        want, text = ''.join(want_parts), ''.join(p for _, p in segs)
+        got = attempt(via, pol, texts)
+        styled_tail = bool(segs) and stack_attrs(segs[-1][0], table) != PLAIN
+        chk.case(f'markup:{texts}:{pol}:{via}', nontrivial=any(stack_attrs(s, table) != PLAIN for s, _ in segs))
+        chk.count(f'markup.{"on" if en else "off"}.{"explicit" if pol[0] is not None else "default"}'
+                  f'.{"styled-tail" if styled_tail else "other"}')
+        chk.count('markup.via.' + via)
+        if isinstance(got, str):
+            bad += 1
+            chk.violation('corr:markup-raises', f'{via} raised on {texts!r}',
+                          {'correspondence': 'markup', 'texts': texts, 'policy': str(pol), 'via': via, 'impl': got})
+            continue
+        out, value, ln = got
+        if value != text:
+            bad += 1
+            chk.violation('corr:markup-text', f'the text of markup {texts!r} is {value!r}, the reference scanner gives {text!r}',
+                          {'correspondence': 'markup tokens/stack vs reference', 'texts': texts, 'impl': value, 'ref': text})
+        elif out != want:
+            bad += 1
+            # where: first segment whose rendering is not at its place
+            pos, where = 0, 'tail'
+            for k, w in enumerate(want_parts):
+                if not out.startswith(w, pos):
+                    where = 'tail' if k == len(want_parts) - 1 else 'inner'
+                    break
+                pos += len(w)
+            chk.violation(f'corr:markup-render:{"on" if en else "off"}:{where}',
+                          f'{via} on {texts!r} with policy {pol} gives {out!r}, the model renders {want!r}',
+                          {'correspondence': 'markup segments rendered by apply_style under the policy', 'texts': texts,
+                           'policy': str(pol), 'via': via, 'impl': out, 'model': want})
+        why = oracle(via, pol, texts)
+        if why:
+            # shrink: drop pieces, then the second text, while the same clause fails
+            cur = list(pieces) if ''.join(pieces) == ''.join(texts) else None
+            if cur is not None:
+                k = 0
+                while k < len(cur):
+                    cand = cur[:k] + cur[k + 1:]
+                    if cand and oracle(via, pol, [''.join(cand)]) == why:
+                        cur = cand
+                    else:
+                        k += 1
+                small = [''.join(cur)] if oracle(via, pol, [''.join(cur)]) == why else texts
+            else:
+                small = texts
+            ssegs = ref_markup(small)
+            o = attempt(via, pol, small)
+            tail = bool(ssegs) and isinstance(o, tuple) and ESC in o[0][len(o[0]) - len(ssegs[-1][1]) - 6:]
+            shape = 'unclosed-tail' if ssegs and ssegs[-1][0] and tail else 'closed'
+            chk.violation(f'oracle:markup-{why}:{shape}',
+                          f'{via} on {small!r} with policy {pol} (enabled={enabled_of[pol]}) gives {o!r}',
+                          {'oracle': {'transparent': 'descape(str(markup)) == text', 'disabled-has-escape': 'disabled -> text, no ESC',
+                                      'visible-length': 'len == len(text)',
+                                      'policy-env-dependent': 'an explicit policy does not depend on the environment'}[why],
+                           'texts': small, 'policy': str(pol), 'via': via, 'got': str(o)})
+    chk.obligation('Y1:markup()/Color.markup/Style.markup vs reference scanner + apply_style of the model under the policy '
+                   '(default policy set independently of the explicit one)', 'correspondence', bad == 0)
+    chk.sample({'markup': repr(cases[-3][1]), 'policy': str(cases[-3][2]), 'segments': repr(refs[-3])})
+    return table, bnames, xnames
+
+
+def clamp_colour(v):
+    if v is None:
+        return None
+    if isinstance(v, tuple):
+        return tuple(max(0, min(x, 255)) for x in v)
+    return None if v < 0 else min(v, 255)
+
+
+def gen_colour_wild(rng):
+    r = rng.random()
+    if r < 0.15:
+        return rng.choice([-1, -7, 256, 300, 1000])
+    if r < 0.25:
+        return tuple(rng.choice([-1, 0, 255, 256, 300, 17]) for _ in range(3))
+    return gen_colour(rng)
+
+
+def run_derive(chk: Check, mr: ModelRun, restyles: bool, enabled_of: dict, table: dict, bnames: list, xnames: list):
+    import copy as _copy
+    from tatsu.ztyle import Style, RGB
+    from tatsu.ztyle.xstyle import XStyle
+    from tatsu.ztyle.colormap import COLORMAP, color as cm_color
+    from tatsu.ztyle.csscolormap import CSS_COLORS, css_color
+    rng = chk.rng
+    cm_names = sorted(COLORMAP) + ['Red', 'no such colour', 'bright red']
+    css_names = sorted(CSS_COLORS) + ['Rebecca Purple', 'nosuch', 'RED']
+    pols = list(all_policies())
+
+    def arg_colour(v):
+        return RGB(*v) if isinstance(v, tuple) else v
+
+    def gen_ops(start):
+        ops = []
+        for _ in range(rng.randint(1, 5)):
+            r = rng.random()
+            if r < 0.3:
+                ops.append(('name', rng.choice(bnames) if start != 'XStyle' or rng.random() < 0.5 else rng.choice(xnames)))
+            elif r < 0.45:
+                ops.append((rng.choice(['fg', 'bg']), gen_colour_wild(rng)))
+            elif r < 0.52:
+                ops.append((rng.choice(['fg_rgb', 'bg_rgb']), tuple(rng.choice([-3, 0, 7, 128, 255, 256, 999]) for _ in range(3))))
+            elif r < 0.6:
+                ops.append((rng.choice(['fg_name', 'bg_name']), rng.choice(cm_names)))
+            elif r < 0.68:
+                ops.append((rng.choice(['fg_css', 'bg_css']), rng.choice(css_names)))
+            elif r < 0.78:
+                ops.append(('fmt', gen_spec(rng, valid=rng.random() < 0.9)))
+            elif r < 0.93:
+                ops.append(('call', gen_text(rng, esc_free=rng.random() < 0.95, nonempty=rng.random() < 0.95),
+                            None if rng.random() < 0.6 else gen_spec(rng, valid=rng.random() < 0.9)))
+            else:
+                ops.append(('copy',))
+        return ops
+
+    def ref_step(state, op):
+        st, text, fmt = state
+        k = op[0]
+        if k == 'name':
+            st = eff_apply(st, table[op[1]])
+        elif k in ('fg', 'bg', 'fg_rgb', 'bg_rgb'):
+            st = eff_apply(st, (k[:2], clamp_colour(op[1])))
+        elif k in ('fg_name', 'bg_name'):
+            st = eff_apply(st, (k[:2], cm_color(op[1])))      # colormap.py is a name table (trusted)
+        elif k in ('fg_css', 'bg_css'):
+            c = css_color(op[1])                              # csscolormap.py is a name table (trusted)
+            if c is not None:
+                st = eff_apply(st, (k[:2], tuple(c)))
+        elif k == 'fmt':
+            fmt = op[1]
+        elif k == 'call':
+            text = op[1]
+            if op[2] is not None:
+                fmt = op[2]
+        return (st, text, fmt)
+
+    def impl_step(s, op):
+        k = op[0]
+        if k == 'name':
+            return getattr(s, op[1])()
+        if k in ('fg', 'bg'):
+            return getattr(s, k)(arg_colour(op[1]))
+        if k in ('fg_rgb', 'bg_rgb'):
+            return getattr(s, k)(*op[1])
+        if k in ('fg_name', 'bg_name', 'fg_css', 'bg_css', 'fmt'):
+            return getattr(s, k)(op[1])
+        if k == 'call':
+            return s(op[1]) if op[2] is None else s(op[1], fmt=op[2])
+        return _copy.copy(s)
+
+    def asciidigits(x):
+        return x is None or not any(c.isdigit() and not ('0' <= c <= '9') for c in x)
+
+    cases = []
+    for _ in range(2500 if chk.quick else 50000):
+        start = rng.choice(['Style', 'Color.style', 'XStyle'])
+        st0 = gen_style(rng) if rng.random() < 0.6 else PLAIN
+        t0 = '' if rng.random() < 0.3 else gen_text(rng)
+        f0 = gen_spec(rng) if start != 'Color.style' and rng.random() < 0.3 else None
+        en0 = rng.random() < 0.4
+        r = rng.random()
+        if r < 0.35:
+            pol = (en0, None, '1', rng.random() < 0.3, True, True) if not en0 else (en0, '1', None, rng.random() < 0.3, False, False)
+        elif r < 0.55:
+            pol = (en0, None, None, rng.random() < 0.3, not en0, not en0)
+        else:
+            pol = rng.choice(pols)
+        ops = gen_ops(start)
+        sp = None if rng.random() < 0.5 else gen_spec(rng, valid=rng.random() < 0.9)
+        states = [(st0, t0, f0)]
+        for op in ops:
+            states.append(ref_step(states[-1], op))
+        if not all(asciidigits(x) for x in [sp] + [s[2] for s in states]):
+            continue
+        cases.append((start, pol, ops, sp, states))
+    reqs = []
+    for start, pol, ops, sp, states in cases:
+        st, t, sf = states[-1]
+        en = enabled_of[pol]
+        reqs.append(f'(apply {sx(en)} {sx_style(st)} {sx_ostr(sf)} {sx(t)} none)')
+        reqs.append(f'(style_len {sx(en)} {sx_style(st)} {sx_ostr(sf)} {sx(t)})')
+        reqs.append(f'(dunder_format {sx(restyles)} {sx(en)} {sx_style(st)} {sx_ostr(sf)} {sx(t)} {sx(sp or "")})')
+    rep = mr.ask(reqs)
+    bad = 0
+
+    def att(f):
+        try:
+            return f()
+        except ValueError:
+            return None
+
+    for k, (start, pol, ops, sp, states) in enumerate(cases):
+        force, nc, fc, cs, ot, et = pol
+        en = enabled_of[pol]
+        st0, t0, f0 = states[0]
+        m_str = rd_ostr(rep[3 * k])
+        m_len = None if rep[3 * k + 1] == 'none' else int(rep[3 * k + 1][1])
+        m_fmt = rd_ostr(rep[3 * k + 2])
+        diverged = None
+        with EnvCfg(nc, fc, ot, et):
+            c = mk_color(force, cs)
+            kw = dict(zip(FLAGS, st0[0]))
+            if start == 'Color.style':
+                s = c.style(t0, fg=impl_color(st0[1]), bg=impl_color(st0[2]), **kw)
+            else:
+                s = (Style if start == 'Style' else XStyle)(t0, fmt=f0, fg=impl_color(st0[1]), bg=impl_color(st0[2]), color=c, **kw)
+            for op, want in zip(ops, states[1:]):
+                s = impl_step(s, op)
+                if diverged is None and (attrs_of(s), s.value, s._fmt) != want:
+                    diverged = (op, (attrs_of(s), s.value, s._fmt), want)
+            outs = (att(lambda: str(s)), att(lambda: len(s)), att(lambda: format(s, sp or '')))
+            same_policy = s.color is c
+        outs2 = None
+        if force is not None:
+            with flipped_env(en):
+                outs2 = (att(lambda: str(s)), att(lambda: len(s)), att(lambda: format(s, sp or '')))
+        last = ops[-1][0]
+        chk.case(f'derive:{start}:{pol}:{ops}:{sp}:{states[0]}', nontrivial=bool(states[-1][1]) and states[-1][0] != PLAIN)
+        chk.count(f'derive.{"on" if en else "off"}.{"explicit" if force is not None else "default"}')
+        chk.count('derive.last-op.' + last)
+        if diverged is not None:
+            bad += 1
+            chk.violation(f'corr:derive-state:{diverged[0][0]}', f'{start} after {diverged[0]} is {diverged[1]}, expected {diverged[2]}',
+                          {'correspondence': 'builder methods vs reference', 'start': start, 'initial': str(states[0]),
+                           'ops': str(ops), 'impl': str(diverged[1]), 'ref': str(diverged[2])})
+            continue
+        for what, i, m in zip(('str', 'len', 'format'), outs, (m_str, m_len, m_fmt)):
+            if i != m:
+                bad += 1
+                chk.violation(f'corr:derive-{what}:{"on" if en else "off"}:{last}',
+                              f'{what} of a style built by {start} + {ops} under policy {pol} is {i!r}, the model gives {m!r}',
+                              {'correspondence': f'derived style {what} vs model under the policy', 'start': start,
+                               'initial': str(states[0]), 'ops': str(ops), 'spec': sp, 'policy': str(pol), 'impl': i, 'model': m})
+        if not en and any(isinstance(o, str) and ESC in o for o in outs) and ESC not in states[-1][1] + (states[-1][2] or '') + (sp or ''):
+            chk.violation(f'oracle:derive-disabled-has-escape:{last}', f'colour disabled but a style built by {start} + {ops} renders {outs!r}',
+                          {'oracle': 'disabled -> no ESC', 'start': start, 'initial': str(states[0]), 'ops': str(ops),
+                           'policy': str(pol), 'got': str(outs)})
+        if (outs2 is not None and outs2 != outs) or not same_policy:
+            chk.violation(f'oracle:derive-policy-env-dependent:{last}',
+                          f'a style built by {start} + {ops} with the explicit policy {pol} renders {outs!r}, and {outs2!r} in another environment',
+                          {'oracle': 'an explicit policy does not depend on the environment; derived styles keep the policy object',
+                           'start': start, 'initial': str(states[0]), 'ops': str(ops), 'policy': str(pol), 'got': str(outs),
+                           'other-env': str(outs2), 'same-policy-object': same_policy})
+    chk.obligation('Y1:styles derived through Color.style / builder methods / __call__ / copy / XStyle names: state vs reference, '
+                   'str/len/format vs model under the policy', 'correspondence', bad == 0)
+    chk.sample({'derive': repr(cases[7][:4]), 'model': repr(rd_ostr(rep[21]))})
+
+
 # ------------------------------------------------------------------ users: error rendering with colour disabled
 def decide(pol):
     force, nc, fc, cs, ot, et = pol
@@ -778,11 +1332,20 @@ def main():
                 'colours (none, 0,7,8,15,16,255, RGB) and all 256 modifier subsets, plus random styles; texts over ASCII, braces, '
                 'colons, backslash-e, quotes, controls, wide/combining/non-printable characters (a malformed stream contains ESC); '
                 'format specs from the grammar [[fill]align][0][width][.precision][s] plus a malformed stream; all 432 colour '
-                'policies. Non-trivial: text non-empty and style/spec non-default / string contains ESC; distinct by content hash.')
+                'policies. Markup sources: all sequences of up to 3 (quick) / 4 (thorough) pieces over {text, [bold], [red], '
+                '[bold red], [/], [/bold], [/all], [[, stray [ and ]} plus random sources (nested/unclosed/unknown/XStyle tags, '
+                'stray brackets, several arguments), rendered through markup(color=), markup(), Color.markup, Style.markup and a '
+                'derived style, each under an explicit or default policy with the process default (NO_COLOR/FORCE_COLOR/tty) set '
+                'independently, and re-rendered in an environment with the opposite default; styles derived by random chains of '
+                'builder methods / __call__ / copy / Color.style / XStyle names under the same policy x environment grid. '
+                'Non-trivial: text non-empty and style/spec non-default / string contains ESC / a styled markup segment; '
+                'distinct by content hash.')
     chk.trusted += ['Python re (ANSI_RE, SGR_RE, the parse_fmt regex), str.__format__, repr(str), str.isprintable (oracle table of the model)',
                     're._parser (used by the translator to read the regex literals), ast',
                     'modelled: Style.apply_style/apply/__str__/__len__/__format__/__repr__/from_raw/parse_fmt, Color.enabled, '
-                    'tty.descape/visual_len/tty_escape/tty_unescape; not modelled: markup.py, colormap.py (name tables), XStyle']
+                    'tty.descape/visual_len/tty_escape/tty_unescape; markup.py: reference scanner/stack interpreter in c20.py (Python, not '
+                    'Coq) + the model renderer per segment; colormap.py / csscolormap.py / XStyle are name tables (read from the '
+                    'implementation, checked for mutual consistency only)']
     chk.assumptions += ['format specs and SGR parameters use ASCII digits (Python also accepts other Unicode decimal digits)',
                         'widths are small enough for memory; int() digit limit (4300) not reached',
                         'visible length counts code points (as visual_len does); display width of wide/combining characters is out of scope']
@@ -796,9 +1359,11 @@ def main():
         run_apply_style(chk, mr)
         run_sgr(chk, mr)
         run_format(chk, mr)
-        run_enabled(chk, mr)
+        enabled_of = run_enabled(chk, mr)
         run_apply(chk, mr, bool(defs['dunder_format_restyles']))
         run_repr(chk, mr)
+        table, bnames, xnames = run_markup(chk, mr, enabled_of)
+        run_derive(chk, mr, bool(defs['dunder_format_restyles']), enabled_of, table, bnames, xnames)
         run_users(chk)
     chk.exhaustive = False
     return chk.finish()
